@@ -526,9 +526,12 @@ def _check_loadable(w, cfg, folder, ref, V):
         if o in ref.elements:
             fd = next(f for f in w["functions"] if o in f["outputs"])
             flat = canon(got)
+            # (with an empty reduced axis, different elements of one output are computed from equal arguments; which of
+            # them a stored value belongs to cannot be told from the value: such elements are not judged)
+            mult = collections.Counter(c05._call_key(e) for e in ref.elements[o])
             for lin, exp in enumerate(ref.elements[o]):
                 key = c05._call_key(exp)
-                if key in done:
+                if key in done and mult[key] == 1:
                     ext = ref.ext_index[o][lin]
                     try:
                         v = np.ma.asarray(got)[ext] if not fd.get("out_shape") else None
